@@ -2,7 +2,7 @@
    name.  This is what is extracted; the correspondence harness calls these
    and nothing else. *)
 From AK Require Import Base.Prelude Base.Sx Bytes.Text Bytes.FabHeader Bytes.BinFile
-  Reader.Select Reader.BoxRead Reader.Level Plotfile.TextHeader Taste.Taste Reader.ReadSpec Plotfile.Abstract Writers.Colander Writers.ColanderSpec Writers.Combine Writers.CombineSpec Writers.Chef Writers.Chk2plt Writers.ChefToolProofs Writers.FullPipeline
+  Reader.Select Reader.BoxRead Reader.Level Plotfile.TextHeader Taste.Taste Reader.ReadSpec Plotfile.Abstract Writers.Colander Writers.ColanderSpec Writers.Combine Writers.CombineSpec Writers.Chef Writers.Chk2plt Writers.ChefToolProofs Writers.FullPipeline Writers.GoodB
   Array.Paint Mandoline.Plate Mandoline.Slice3D Mandoline.SlicePlot Whip.Whip Pestle.Pestle Point.PointQuery Menu.Menu Paths.Posix.
 
 Definition as_Zs := as_list as_Z.
@@ -450,6 +450,11 @@ Definition e_chef_spec (s : sx) : sx :=
   | _ => bad_request
   end.
 
+(* ---- the hypothesis of the tool-level theorems on a plotfile, evaluated: request plotfile -> 1 when goodb holds
+   (GoodB.goodb_sound: then the plotfile is 'good') ---- *)
+Definition e_goodb (s : sx) : sx :=
+  req (dec_plotfile s) (fun a => ok (SZ (if goodb a then 1 else 0))).
+
 (* ---- C14: the SPECIFICATION side of a whole chain (theorem C14_full_chain).  request: (plotfile ops) with
    op = (0 vars limit) | (1 names1 names2 (0 plotfile)) | (1 names1 names2 (1 k))  [k: the k-th state of the chain,
    0 = the initial plotfile] | (2 keep names table) -> per hop the image of the state of the composed pure operations
@@ -518,6 +523,22 @@ Definition e_chk2plt_level (s : sx) : sx :=
              of_result (fun r => let '(files, cells, mins, maxs) := r in
                                  SL [enc_disk files; enc_cells cells; of_list (of_list SB) mins; of_list (of_list SB) maxs])
                        (convert_level boxes sf sc gf gc rf rc dg dr fl ys ns))
+  | _ => bad_request
+  end.
+
+(* ... the same with the level header chk2plt writes: request as above preceded by the output field count
+   -> (level header text, binary files) *)
+Definition e_chk2plt_level_dir (s : sx) : sx :=
+  match s with
+  | SL [SZ nout; boxes; sf; sc; gf; gc; rf; rc; dg; dr; fl; SZ ys; SZ ns] =>
+      req (do boxes <- as_list (as_pair as_Zs as_Zs) boxes;
+           do sf <- dec_disk sf; do sc <- dec_cells sc; do gf <- dec_disk gf; do gc <- dec_cells gc;
+           do rf <- dec_disk rf; do rc <- dec_cells rc; do dg <- as_bool dg; do dr <- as_bool dr;
+           do fl <- as_opt (as_list as_Bs) fl;
+           Some (boxes, sf, sc, gf, gc, rf, rc, dg, dr, fl))
+          (fun '(boxes, sf, sc, gf, gc, rf, rc, dg, dr, fl) =>
+             of_result (fun d => SL [Sx.of_opt enc_text (ld_cellh d); enc_disk (ld_files d)])
+                       (convert_level_dir nout boxes sf sc gf gc rf rc dg dr fl ys ns))
   | _ => bad_request
   end.
 
@@ -648,7 +669,9 @@ Definition entries : list (string * (sx -> sx)) :=
     ("chef", e_chef);
     ("chef_spec", e_chef_spec);
     ("full_chain", e_full_chain);
+    ("goodb", e_goodb);
     ("chk2plt_level", e_chk2plt_level);
+    ("chk2plt_level_dir", e_chk2plt_level_dir);
     ("slice3d", e_slice3d);
     ("menu", e_menu);
     ("minuterie", e_minuterie);
